@@ -58,9 +58,9 @@ def cf_cases(ctx, n):
 
 
 def run(ctx):
-    extra = cf_cases(ctx, ctx.budget(2, 12))
+    extra = cf_cases(ctx, ctx.budget(2, 10))
     out, cases, obs, usable, bad = fakes.drive(
-        ctx, "c16", SPEC, ctx.budget(30, 600), ctx.budget(4, 60), ctx.budget(8, 300), RULE,
+        ctx, "c16", SPEC, ctx.budget(30, 300), ctx.budget(4, 40), ctx.budget(8, 300), RULE,
         "more than max_concurrent jobs launched and unfinished at some instant", force_k=True, extra_cases=extra)
     peaks = []
     for i in usable:
